@@ -198,8 +198,8 @@ def rule_truncating_casts(ctx):
                 if any(g[3][0] == "call" and str(g[3][1]).endswith("is_ascii") and g[2] in ([None], [1]) for g in gs):
                     ctx.ok(site(fn, bi, si), "char → u8 only under is_ascii()")
                     continue
-            if root in region:
-                ctx.ok(site(fn, bi, si), "`as %s` inside the slab-guarded region (haystack ≤ u16::MAX columns, needle ≤ %d rows, bonus ≤ %d)" % (rv["to"], mn, maxb))
+            if root in region and rv["to"] == "u16":
+                ctx.ok(site(fn, bi, si), "`as u16` of an index inside the slab-guarded region (haystack ≤ u16::MAX columns, needle ≤ %d rows)" % mn)
                 continue
             if fn.path == fmo:
                 # match_end: index into current_row (≤ haystack window ≤ u16::MAX by the slab guard)
